@@ -30,13 +30,19 @@ type wireDiff struct {
 	Compat      int
 	Info        string
 }
+type cliReq struct {
+	Old, New, Format, Ignore, Dest string
+	OnlyBreaking                   bool
+}
 type wireReq struct {
 	A, B []byte
+	CLI  *cliReq
 }
 type wireRes struct {
 	Panic string
 	Err   string
 	Diffs []wireDiff
+	CLI   *CLIResult
 }
 
 func toWireNode(n *diff.Node) *wireNode {
@@ -63,6 +69,12 @@ func WorkerMain() {
 		var rq wireReq
 		if err := dec.Decode(&rq); err != nil {
 			return
+		}
+		if rq.CLI != nil {
+			c := RunCLI(rq.CLI.Old, rq.CLI.New, rq.CLI.Format, rq.CLI.OnlyBreaking, rq.CLI.Ignore, rq.CLI.Dest)
+			_ = enc.Encode(wireRes{CLI: &c})
+			_ = out.Flush()
+			continue
 		}
 		r := Compare(rq.A, rq.B)
 		w := wireRes{Panic: r.Panic, Err: r.Err}
@@ -118,14 +130,30 @@ func (p *Pool) kill() {
 
 func (p *Pool) Close() { p.kill() }
 
+// CLI runs `swagger diff` (DiffCommand.Execute) in the worker.
+func (p *Pool) CLI(old, new, format string, onlyBreaking bool, ignore, dest string) CLIResult {
+	r := p.roundtrip(wireReq{CLI: &cliReq{Old: old, New: new, Format: format, Ignore: ignore, Dest: dest, OnlyBreaking: onlyBreaking}})
+	if r.cli != nil {
+		return *r.cli
+	}
+	return CLIResult{Panic: r.res.Panic + r.res.Err}
+}
+
+type rt struct {
+	res Result
+	cli *CLIResult
+}
+
 // Compare runs one comparison in the worker; a crash or a timeout is reported as Panic "CRASH: ...".
-func (p *Pool) Compare(a, b []byte) Result {
+func (p *Pool) Compare(a, b []byte) Result { return p.roundtrip(wireReq{A: a, B: b}).res }
+
+func (p *Pool) roundtrip(req wireReq) rt {
 	if p.cmd == nil {
 		if err := p.start(); err != nil {
-			return Result{Err: "worker start: " + err.Error()}
+			return rt{res: Result{Err: "worker start: " + err.Error()}}
 		}
 	}
-	rq, _ := json.Marshal(wireReq{A: a, B: b})
+	rq, _ := json.Marshal(req)
 	type got struct {
 		w   wireRes
 		err error
@@ -145,7 +173,10 @@ func (p *Pool) Compare(a, b []byte) Result {
 		if g.err != nil {
 			p.kill()
 			p.Crashes++
-			return Result{Panic: "CRASH: worker died (fatal runtime error such as stack overflow): " + g.err.Error()}
+			return rt{res: Result{Panic: "CRASH: worker died (fatal runtime error such as stack overflow): " + g.err.Error()}}
+		}
+		if g.w.CLI != nil {
+			return rt{cli: g.w.CLI}
 		}
 		res := Result{Panic: g.w.Panic, Err: g.w.Err}
 		for _, d := range g.w.Diffs {
@@ -153,10 +184,10 @@ func (p *Pool) Compare(a, b []byte) Result {
 				DifferenceLocation: diff.DifferenceLocation{URL: d.URL, Method: d.Method, Response: d.Response, Node: fromWireNode(d.Node)},
 				Code:               diff.SpecChangeCode(d.Code), Compatibility: diff.Compatibility(d.Compat), DiffInfo: d.Info})
 		}
-		return res
+		return rt{res: res}
 	case <-time.After(p.Timeout):
 		p.kill()
 		p.Crashes++
-		return Result{Panic: fmt.Sprintf("CRASH: no result after %s (non-termination)", p.Timeout)}
+		return rt{res: Result{Panic: fmt.Sprintf("CRASH: no result after %s (non-termination)", p.Timeout)}}
 	}
 }
